@@ -13,6 +13,23 @@ import numpy as np
 from . import common as C
 
 
+def regenerate(ctx):
+    """Run gen/stft.py on the current source (coq/gen/StftK.v feeds coq/Stft/Tie.v)."""
+    import os
+    import sys
+
+    sys.path.insert(0, os.path.join(C.ROOT, "gen"))
+    import stft as gen_stft
+
+    try:
+        gen_stft.main(C.SRC, os.path.join(C.COQ, "gen", "StftK.v"))
+        return True
+    except Exception as e:  # noqa: fail closed
+        ctx.fail("translator gen/stft.py no longer recognises compute.py / torch.py: %s" % e,
+                 dict(correspondence="gen/stft.py -> coq/gen/StftK.v", error=str(e)[:500]), kind="tie", no_input=True)
+        return False
+
+
 def make_computer(Lv, Sv, centered, kaldi, record):
     C.ensure_impl_path()
     from pydrobert.speech import compute, filters
